@@ -81,17 +81,21 @@ matched by signature; a violation whose signature is not listed exits 1.
 
 ### 9.5 Seeded changes
 
-Two rounds, 120 changes in all, were written by sub-agents - one agent per property and round. Each agent saw only
+Three rounds, 180 changes in all, were written by sub-agents - one agent per property and round. Each agent saw only
 the property's text (statement, quantifier, code anchors) and a scratch git worktree of /repo, never /verif. Each
 change passes the repo's suite (331 tests) and comes with a demonstration script that exits 1 on the changed tree and
 0 on the unchanged one (both verified again here). Every change was applied to /repo's working tree, the property's
 quick check was run, and the change was reverted (`harness/seeded_eval.py` repeats this; nothing was ever committed
-to /repo). They are kept under `seeded/<id>/mK` (round 1) and `seeded/<id>/r2mK` (round 2) with `patch.diff`,
-`demo.py` and `meta.json`; `meta.json.history` records the verdict of every evaluation.
+to /repo). They are kept under `seeded/<id>/mK` (round 1), `seeded/<id>/r2mK` (round 2) and `seeded/<id>/r3mK`
+(round 3) with `patch.diff`, `demo.py` and `meta.json`; `meta.json.history` records the verdict of every evaluation.
 
 * Round 1, first evaluation: 38 of 60 caught with a failing input, 3 caught only as a broken correspondence
   (`no-failing-input-found`), 19 missed. Round 2 (after the round-1 strengthening), first evaluation: 43 of 60 caught
-  with a failing input, 1 only as a broken correspondence, 16 missed.
+  with a failing input, 1 only as a broken correspondence, 16 missed. Round 3 (agents told that the obvious
+  one-line changes had been tried): 50 of 60 caught with a failing input at the first evaluation, 10 missed.
+* Detection must not hang on a lucky seed: the whole set was also run with `VERIF_SEED=1` (the seed of `vp check`);
+  the two changes that were caught with one seed and missed with another got a deterministic or targeted
+  generator (C06 entry in front of foreign code, C14 nested expressions of 128 bytes or more).
 * Every miss was traced to the reason the check could not see the change, and the check - never the property - was
   changed. The recurring reasons were: (a) generator blind spots - tables always filled in ascending offset order,
   no scope-wide registrations mixed with `insert_at`, no module-level tables (PE safe-SEH, DT_INIT/DT_FINI), no
@@ -103,11 +107,18 @@ to /repo). They are kept under `seeded/<id>/mK` (round 1) and `seeded/<id>/r2mK`
   patch's own expressions (C04), which recorded operation belongs to which request (C01), attribute conversion and
   edge retargeting (C18), untouched expressions (C19); (c) a domain predicate that was too coarse (C03/C09 judged
   "code runs off the end" per request instead of on the final state of the block).
-* After the strengthening all 120 are caught with a failing input; the per-property lists above show each change and
-  both verdicts. Two things the strengthened checks found on the *unchanged* tree are recorded in
-  `known_findings.json`: the DT_INIT typo in `_can_remove_block` (repaired, d4827ab) and the missing fallthrough
+* After the strengthening all 180 are caught with a failing input; the per-property lists above show each change and
+  both verdicts. What the strengthened checks (and two side remarks of seeding agents, reproduced before anything
+  was done about them) found on the *unchanged* tree is in `known_findings.json`: the DT_INIT typo in
+  `_can_remove_block` (repaired, d4827ab); a label at the end of a patch moved behind the bytes that follow the
+  insertion point (repaired in `are_joinable`, efbce7a - the hypothesis `join_moves_no_symbol` needed was exactly
+  this input); a patch calling one function twice got one return edge (repaired, 190d75d); the missing fallthrough
   edge when a batch removes a block's terminator - or appends code that does not end in one - and then inserts code
-  at that same end (recorded, C03). One specification clause was relaxed with the reason stated in the runner's
+  at that same end (recorded, C03). A false alarm of C11 on the unchanged tree (unlaid-out modules with several
+  sections: patch ids follow the section order `gtirb_layout` happens to choose) was found by the clean-tree sweep
+  under `VERIF_SEED=1` and removed by keeping that variation to one section; a false alarm of C03's specification
+  (a return edge to the proxy that replaced a proxy-deleted return site) was found by the thorough tier and the
+  specification corrected. One specification clause was relaxed with the reason stated in the runner's
   ASSUMPTIONS (C05: a patch's branch-target label at the very end of its byte interval has to stay on a zero-sized
   block; C08: an insertion exactly at a `.cfi_startproc` that is keyed to the end of the preceding block is not
   judged for coverage).
